@@ -32,3 +32,4 @@ func vFmtArg(k int) uint64
 func vPar(f, g func())
 func vNoBlock(on bool)
 func vFmtInt(k int, s string) uint64
+func vTokOperand(k int) uint64
